@@ -74,6 +74,8 @@ func main() {
 		progressMode(r, sk)
 	case "readstorm":
 		readStormMode(r, sk)
+	case "members":
+		membersMode(r, sk)
 	default:
 		fmt.Fprintln(os.Stderr, "unknown mode", r.Mode)
 		os.Exit(2)
